@@ -33,7 +33,8 @@ ASSUMPTIONS = [
 ]
 REQUIRED_MONITORS = ["h5_streams_checked", "h5_rows_compared", "xyz_frames_checked", "thermo_lines_checked",
                      "checkpoint_events_checked", "absent_streams_checked", "resumed_runs_checked",
-                     "static_metadata_checked", "fssh_invariant_rows_checked", "tdm_streams_checked"]
+                     "static_metadata_checked", "fssh_invariant_rows_checked", "tdm_streams_checked",
+                     "kinetic_crosscheck_steps_with_velocity_control"]
 CASE_TIMEOUT = 900.0
 # budgets are sized for 16 workers; with fewer workers (VERIF_NCPU) the same work needs proportionally longer
 _SCALE = max(1.0, 16.0 / max(1, env.NCPU)) * float(os.environ.get("VERIF_BUDGET_SCALE", "1"))   # >1 on a loaded machine
@@ -55,7 +56,11 @@ ENGINE_SETUPS = {
     "xl_batch": ("xl", ["H2O", "H2"], [[0, 1], [0]]),
     "ksa": ("ksa", ["H2O"], [[0]]),
     "cis_bomd": ("cis_bomd", ["H2O"], [[0]]),
+    # velocity-control options of run(): the values written for a step must be those AFTER that step's correction
+    "bomd_eshift": ("bomd", ["H2O"], [[0]]),
+    "bomd_scalevel": ("bomd", ["H2O", "H2"], [[0, 1]]),
 }
+RUN_OPTS = {"bomd_eshift": {"control_energy_shift": True}, "bomd_scalevel": {"scale_vel": [2, 450.0]}}
 
 
 # ---------------------------------------------------------------------------------------
@@ -147,7 +152,8 @@ def gen_cases(tier, seed):
     def mk(setup, N, molid, tuples, tag):
         eng, mols, _ = ENGINE_SETUPS[setup]
         return {"setup": setup, "engine": eng, "mols": mols, "molid": molid, "N": N, "seed": int(g.integers(0, 1000)),
-                "geom_seed": int(g.integers(0, 10 ** 6)), "tuples": tuples, "tag": tag}
+                "geom_seed": int(g.integers(0, 10 ** 6)), "tuples": tuples, "tag": tag,
+                "run_opts": RUN_OPTS.get(setup, {})}
 
     if tier == "quick":
         setups = ["bomd_batch", "langevin", "xl", "fssh"]
@@ -267,7 +273,19 @@ def gen_cases(tier, seed):
                                "resume": {"after_step": r + off + 1, "mode": mode}})
         for k in range(0, len(tuples), 6):
             res_cases.append(mk(setup, 9, molids[0], tuples[k:k + 6], "%s/N9/resume-residues/%d" % (setup, k // 6)))
-    return first + res_cases[:1] + cases[:8] + res_cases[1:] + cases[8:]
+    # --- velocity-control cells (both tiers): streams that meet at every step, and only occasionally
+    vc = []
+    for setup in ("bomd_eshift", "bomd_scalevel"):
+        _, _, molids = ENGINE_SETUPS[setup]
+        tl = [{"name": "vc-all-1", "cad": dict(data=1, coordinates=1, velocities=1, forces=0, xyz=1, nonadiabatic=0,
+                                                print=1, checkpoint=0, tdm=0), "resume": None},
+              {"name": "vc-meet-2-3", "cad": dict(data=2, coordinates=0, velocities=3, forces=0, xyz=2, nonadiabatic=0,
+                                                   print=2, checkpoint=0, tdm=0), "resume": None},
+              {"name": "vc-meet-3-2+resume", "cad": dict(data=3, coordinates=5, velocities=2, forces=0, xyz=3,
+                                                          nonadiabatic=0, print=1, checkpoint=2, tdm=0),
+               "resume": {"after_step": 4}}]
+        vc.append(mk(setup, 7, molids[0], tl, "%s/N7/velocity-control" % setup))
+    return first + vc + res_cases[:1] + cases[:8] + res_cases[1:] + cases[8:]
 
 
 # ---------------------------------------------------------------------------------------
@@ -283,7 +301,7 @@ def setup_worker():
 
 def _cfg(case, cad, prefix, molid=None, write_mo=False):
     from vlib import mdio
-    return mdio.default_cfg(write_mo=bool(write_mo), engine=case["engine"], mols=case["mols"], geom_seed=case["geom_seed"],
+    return mdio.default_cfg(write_mo=bool(write_mo), **case.get("run_opts", {}), engine=case["engine"], mols=case["mols"], geom_seed=case["geom_seed"],
                             steps=case["N"], seed=case["seed"], molid=list(case["molid"] if molid is None else molid),
                             cad=dict(cad), prefix=prefix, k=3, dt=0.4, scf_eps=1e-8)
 
@@ -463,6 +481,7 @@ def check_run(case, tup, cfg, ref, d, tag, mon, margins, resumed_from=None, stdo
             probs.append({"kind": "h5", "what": "unexpected-stream", "streams": sorted(extra), "mol": mol})
         # static content, judged against the INPUT of the run (not against another run)
         probs += static_checks(got, cfg, mol, mon)
+        probs += kinetic_crosscheck(st, cfg, mol, mon, margins, case)
         if tup.get("write_mo") and "data" in st:
             gap = st["data"]["rows"].get("data/mo/homo_lumo_gap")
             mon["mo_gap_rows_checked"] += 0 if gap is None else int(gap.shape[0])
@@ -563,6 +582,62 @@ def check_run(case, tup, cfg, ref, d, tag, mon, margins, resumed_from=None, stdo
     for p in cp:
         probs.append(dict(p, kind="cursor", what="cursor-invariant"))
     return probs
+
+
+_MASS = {}
+
+
+def _masses(Z):
+    """atomic masses of the shipped table (the property's given)"""
+    if not _MASS:
+        from seqm.seqm_functions.constants import Constants
+        m = Constants().mass.detach().cpu().numpy().astype(float)
+        _MASS.update({i: float(x) for i, x in enumerate(m)})
+    return np.array([_MASS[int(z)] for z in Z])
+
+
+KE_SCALE = 1.0364270099032438e2      # amu (A/fs)^2 -> eV
+T_SCALE = 1.160451812e4              # K / eV
+
+
+def kinetic_crosscheck(st, cfg, mol, mon, margins, case):
+    """Cross-stream VALUE clause inside one file: at every step that both the data stream and the /velocities stream
+    hold, thermo/Ek equals the kinetic energy recomputed from that step's velocity row and thermo/T the temperature
+    that follows from it (3 N_atoms degrees of freedom: no configuration here removes centre-of-mass motion)."""
+    from vlib import mdio
+    d, v = st.get("data"), st.get("velocities")
+    if d is None or v is None:
+        return []
+    ek, tt, vals = d["rows"].get("data/thermo/Ek"), d["rows"].get("data/thermo/T"), v["rows"].get("velocities/values")
+    if ek is None or tt is None or vals is None:
+        return []
+    S, _, _, _ = mdio.geometry(cfg)
+    Z = [int(z) for z in S[mol] if z > 0]
+    m = _masses(Z)
+    vs = {int(s): j for j, s in enumerate(v["steps"]) if j == 0 or int(s) > max(int(x) for x in v["steps"][:j])}
+    out = []
+    opts = case.get("run_opts") or {}
+    for i, s in enumerate(int(x) for x in d["steps"]):
+        if s not in vs or (i > 0 and s <= max(int(x) for x in d["steps"][:i])) or i >= len(ek):
+            continue
+        vel = np.asarray(vals[vs[s]], float)
+        if vel.shape != (len(Z), 3):
+            continue
+        ek_v = float((0.5 * m[:, None] * vel ** 2).sum() * KE_SCALE)
+        t_v = ek_v * T_SCALE / (0.5 * 3.0 * len(Z))
+        mon["kinetic_crosscheck_steps"] += 1
+        fired = (opts.get("control_energy_shift") and s >= 2) or \
+            (opts.get("scale_vel") and s > 0 and s % int(opts["scale_vel"][0]) == 0)
+        mon["kinetic_crosscheck_steps_with_velocity_control"] += int(bool(fired))
+        r1 = abs(float(ek[i]) - ek_v) / (1e-9 * max(abs(ek_v), 1e-6))
+        r2 = abs(float(tt[i]) - t_v) / (1e-9 * max(abs(t_v), 1e-3))
+        if mdio.exceeds(r1, 1.0) or mdio.exceeds(r2, 1.0):
+            out.append({"kind": "thermo", "what": "Ek-or-T-vs-velocities-of-the-same-step", "mol": mol, "step": s,
+                        "Ek_stored": float(ek[i]), "Ek_from_velocities": ek_v, "T_stored": float(tt[i]),
+                        "T_from_velocities": t_v, "velocity_control": opts or None})
+        else:
+            margins["thermo_vs_velocities_same_step"] = max(margins.get("thermo_vs_velocities_same_step", 0.0), r1, r2)
+    return out
 
 
 def static_checks(got, cfg, mol, mon):
@@ -681,7 +756,7 @@ def run_case(case):
     from vlib import env, mdio
     N = case["N"]
     mon = dict.fromkeys(REQUIRED_MONITORS + ["h5_streams_bitwise_equal", "cursor_rows_logged", "tuples_run",
-                                             "reference_runs", "kills_injected", "mo_gap_rows_checked"], 0)
+                                             "reference_runs", "kills_injected", "mo_gap_rows_checked", "kinetic_crosscheck_steps"], 0)
     margins, cells, viol, obs = {}, [], [], {"tuples": {}}
     nontrivial = False
     with env.Scratch("c11") as d:
@@ -720,6 +795,7 @@ def run_case(case):
             ref["h5"][mol] = mdio.h5_streams(got["datasets"])
             ref["atoms"][mol] = got["datasets"]["atoms"]
             bad_ref += static_checks(got, rcfg, mol, mon)
+            bad_ref += kinetic_crosscheck(ref["h5"][mol], rcfg, mol, mon, margins, case)
             if case["engine"] in ("fssh", "fssh_damped"):
                 bad_ref += fssh_invariants(got["datasets"], ref["h5"][mol], mol, mon, margins)
             need = ("data", "coordinates", "velocities", "forces") + (("nonadiabatic",) if case["engine"] == "fssh" else ()) \
